@@ -492,6 +492,7 @@ class Queue(Greenlet):
             for entry in self.queued:
                 self._pool_spawn('store', self._dequeue, entry[1])
             self.queued = []
+            self.queued_ids = set()
         finally:
             self.queued_lock.release()
 
